@@ -23,6 +23,7 @@ structure VSt where
   stopBegun : Bool := false
   pendingStops : List Nat := []     -- threads whose Stop() stored the flag and no Run has returned since
   runExited : Bool := false
+  inRun : Bool := false
   names : List (Nat × String) := []
   tags : List String := []
 
@@ -47,7 +48,7 @@ def spec (c04 c05 c08 : Bool) (v : VSt) (t : Nat) (w : List String) : Except Str
     if t = 0 ∧ w == ["lock", "step"] then
       -- the driver begins a step
       v := { v with bumped := v.bumped.map (fun (u, n) => (u, n + 1)),
-                    stepsSinceStop := if v.stopDone then v.stepsSinceStop + 1 else v.stepsSinceStop }
+                    stepsSinceStop := if v.stopDone ∧ v.inRun then v.stepsSinceStop + 1 else v.stepsSinceStop }
       if c05 then
         match v.bumped.find? (fun (_, n) => n > 1) with
         | some (u, n) => throw s!"driver began {n} steps while T{u} waits for stepMtx after its wake-up datagram"
@@ -78,8 +79,16 @@ def spec (c04 c05 c08 : Bool) (v : VSt) (t : Nat) (w : List String) : Except Str
     else if kind == "end" then
       -- `mark end <user> <action>`
       match rest with
-      | ["close"] => if t ≠ 0 then v := { v with closed := name :: v.closed, tags := "close" :: v.tags }
-      | ["cancel"] => if t ≠ 0 then v := { v with cancelled := name :: v.cancelled, tags := "cancel" :: v.tags }
+      | ["close"] =>
+        if t ≠ 0 then
+          if c04 ∧ v.inHandler == some s!"handler {name}" then
+            throw s!"destructor of socket {name} returned on another thread while its handler is still running"
+          v := { v with closed := name :: v.closed, tags := "close" :: v.tags }
+      | ["cancel"] =>
+        if t ≠ 0 then
+          if c04 ∧ v.inHandler == some s!"task {name}" then
+            throw s!"Cancel() of {name} returned on another thread while its task is still running"
+          v := { v with cancelled := name :: v.cancelled, tags := "cancel" :: v.tags }
       | ["shift"] => v := { v with cancelled := v.cancelled.filter (· ≠ name), tags := "shift" :: v.tags }
       | ["todo"] => v := { v with cancelled := v.cancelled.filter (· ≠ name) }
       | ["stop"] | ["stop-in-task"] =>
@@ -91,9 +100,10 @@ def spec (c04 c05 c08 : Bool) (v : VSt) (t : Nat) (w : List String) : Except Str
       match rest with
       | ["stop"] | ["stop-in-task"] => v := { v with stopBegun := true, pendingStops := t :: v.pendingStops }
       | _ => pure ()
+  | ["mark", "run-enter"] => v := { v with inRun := true, stepsSinceStop := 0 }
   | ["mark", "run-exit"] =>
     if c08 ∧ !v.stopBegun then throw "Run() returned although no Stop() was ever called"
-    v := { v with runExited := true, stopDone := false, stopBegun := false, stepsSinceStop := 0, pendingStops := [],
+    v := { v with runExited := true, stopDone := false, stopBegun := false, stepsSinceStop := 0, pendingStops := [], inRun := false,
                   tags := "run-exit" :: v.tags }
   | _ => pure ()
   return v
